@@ -334,34 +334,46 @@ func (e *Env) setOutArm(gs *core.XG, T string, alts []string) string {
 func (e *Env) c15Modifiers() {
 	r := e.R
 	p := e.P
-	fn := p.Func("applyPathModifiers")
+	// the modifier function: identified by its role (the (string, []string) string function the formatter
+	// applies to every path), by name as a fallback
+	var fn *ssa.Function
+	if fi := e.formatter(); fi != nil && fi.modsFn != nil {
+		fn = fi.modsFn
+	}
+	if fn == nil {
+		fn = p.Func("applyPathModifiers")
+	}
 	obO := r.Ob("R2", "modifiers:order", "modifiers are applied in list order: one range over the modifier slice, each iteration transforming the running value")
 	if fn == nil {
 		obO.Unknown("-", "applyPathModifiers not found")
 		return
 	}
-	sy := e.symbolizer()
-	// the loop: a counted index loop over param modifiers, ascending
+	g := e.XG(fn)
+	if g == nil {
+		return
+	}
+	sy := e.fsym()
+	// the loop: an ascending index loop over the modifier parameter (range, or for i := 0; i < len; i++)
 	var loopOK, found bool
-	for _, b := range fn.Blocks {
-		for _, in := range b.Instrs {
-			ia, ok := in.(*ssa.IndexAddr)
-			if !ok {
-				continue
+	for _, n := range g.Nodes {
+		ia, ok := n.Instr.(*ssa.IndexAddr)
+		if !ok {
+			continue
+		}
+		if base := sy.InCtx(n.Ctx, ia.X); base.Op != "param" || base.Name != fn.Params[1].Name() {
+			continue
+		}
+		found = true
+		idx := sy.InCtx(n.Ctx, ia.Index).String()
+		// ssa's range-over-slice index: op+(φ(-1 | ↺), 1); the explicit counted loop: φ(0 | op+(↺, 1))
+		loopOK = idx == "op+(φ(-1 | ↺), 1)" || idx == "φ(0 | op+(↺, 1))"
+		if la, ok := e.loopOver(g, n, ""); ok {
+			if !e.loopHarmlessExits(g, la) {
+				loopOK = false
+				obO.Fail(g.Where(n), "the modifier loop can be left early")
 			}
-			if pa, ok := ia.X.(*ssa.Parameter); !ok || pa != fn.Params[1] {
-				continue
-			}
-			found = true
-			idx := sy.InFunc(fn, ia.Index).String()
-			// ssa's range-over-slice index: op+(φ(-1 | ↺), 1)
-			loopOK = idx == "op+(φ(-1 | ↺), 1)"
-			if l := core.InnermostLoop(ia); l != nil {
-				if ex := p.EarlyExits(l); len(ex) > 0 {
-					loopOK = false
-					obO.Fail(e.where(ia), "the modifier loop can be left early: "+ex[0])
-				}
-			}
+		} else {
+			loopOK = false
 		}
 	}
 	if !found {
@@ -369,21 +381,29 @@ func (e *Env) c15Modifiers() {
 	} else {
 		obO.Check(loopOK, core.FuncName(fn), "ascending index loop over the modifier slice", "the modifier slice is not traversed front to back")
 	}
-	// handlers
+	// handlers: string constants compared and regular expressions used anywhere in the modifier function's call
+	// tree (patterns compiled in package-level variables are resolved through their initialiser)
 	consts := map[string]bool{}
 	var regexes []string
-	for _, b := range fn.Blocks {
-		for _, in := range b.Instrs {
-			for _, op := range in.Operands(nil) {
-				if k, ok := (*op).(*ssa.Const); ok && k.Value != nil && k.Value.Kind() == constant.String {
-					consts[constant.StringVal(k.Value)] = true
-				}
+	for _, n := range g.Nodes {
+		if n.Instr == nil || n.Kind == core.KAfter {
+			continue
+		}
+		for _, op := range n.Instr.Operands(nil) {
+			if *op == nil {
+				continue
 			}
-			if c, ok := in.(*ssa.Call); ok && c.Call.StaticCallee() != nil && strings.HasPrefix(c.Call.StaticCallee().String(), "regexp.") && len(c.Call.Args) > 0 {
-				if k, ok := c.Call.Args[0].(*ssa.Const); ok && k.Value != nil {
-					regexes = append(regexes, constant.StringVal(k.Value))
-				}
+			if k, ok := (*op).(*ssa.Const); ok && k.Value != nil && k.Value.Kind() == constant.String {
+				consts[constant.StringVal(k.Value)] = true
 			}
+		}
+		if c, ok := n.Instr.(*ssa.Call); ok && c.Call.StaticCallee() != nil && strings.HasPrefix(c.Call.StaticCallee().String(), "(*regexp.Regexp).") && len(c.Call.Args) > 0 {
+			sy.InCtx(n.Ctx, c.Call.Args[0]).Walk(func(z *core.Sym) bool {
+				if z.Op == "call" && (z.Name == "regexp.MustCompile" || z.Name == "regexp.Compile") && len(z.Args) == 1 && z.Args[0].Op == "lit" {
+					regexes = append(regexes, z.Args[0].Lit)
+				}
+				return true
+			})
 		}
 	}
 	type h struct{ key, desc string; ok bool }
